@@ -66,6 +66,15 @@ def run(chk: Check, ctx: Any) -> None:
     chk.rule("C13-R3", "no stale igraph handles: edge variables read by a rewriting loop's condition are re-fetched after the rewrite; delete-sets are per graph; "
                        "end-of-block callback precedes validation of the next vertex")
 
+    chk.rule("C13-R4", "typestate of jump roots: passes that run after the grouping pass (which unsets roots) read .root only behind `maybe_root is not None` "
+                       "or on a jump they built themselves")
+    chk.rule("C13-R5", "edge ids collected before a loop are not looked up after an edge was deleted inside the loop; the join-search memo is cleared before "
+                       "every use inside mutate-and-use loops")
+    root_typestate_rule(chk, ctx, "C13-R4")
+    stale_ids_in_loop_rule(chk, ctx, "C13-R5")
+    from .c11 import memo_rules
+    memo_rules(chk, ctx, "C13-R5")
+
     # ------------------------------------------------------------------ R1
     impl = repo.func(f"{GU}:_find_first_common_next_vertex_in_edges__impl")
     fn = impl.node
@@ -218,3 +227,134 @@ def run(chk: Check, ctx: Any) -> None:
                        "callback first, then validation, then write", node=nest)
             brk = any(isinstance(x, ast.Break) for x in ast.walk(cb))
             chk.decide("C13-R3", "block-writer:callback-breaks", brk, bw, "a negative end-of-block answer does not leave the loop", "negative answer leaves the loop")
+
+
+# --------------------------------------------------------------------------- R4/R5
+
+
+def _pipeline(repo: Any) -> list[str]:
+    gm = repo.cls(f"{GM}.SsbGraphMinimizer")
+    dcls = repo.cls("explorerscript.ssb_converting.ssb_decompiler.ExplorerScriptSsbDecompiler")
+    passes = []
+    for _mname, m in dcls.methods.items():
+        gvars = {n.targets[0].id for n in walk_no_nested(m) if isinstance(n, ast.Assign) and isinstance(n.targets[0], ast.Name)
+                 and isinstance(n.value, ast.Call) and dotted(n.value.func) == "SsbGraphMinimizer"}
+        for n in walk_no_nested(m):
+            if isinstance(n, ast.Call) and isinstance(n.func, ast.Attribute) and isinstance(n.func.value, ast.Name) and n.func.value.id in gvars \
+                    and n.func.attr in gm.methods:
+                passes.append((n.lineno, n.func.attr))
+    passes.sort()
+    return [p for _l, p in passes if p != "get_graphs"]
+
+
+def _helpers(gm: Any, m: ast.FunctionDef, seen: set[str]) -> list[str]:
+    out = []
+    for c in walk_no_nested(m):
+        if isinstance(c, ast.Call):
+            d = dotted(c.func) or ""
+            for pre in ("self.", "SsbGraphMinimizer.", "cls."):
+                if d.startswith(pre) and d[len(pre):] in gm.methods and d[len(pre):] not in seen:
+                    seen.add(d[len(pre):])
+                    out.append(d[len(pre):])
+                    out.extend(_helpers(gm, gm.methods[d[len(pre):]], seen))
+    return out
+
+
+def root_typestate_rule(chk: Check, ctx: Any, rule: str) -> None:
+    """A pass that runs after roots have been unset reads `.root` (which asserts) only behind `maybe_root is not None` or on a jump it has just built."""
+    repo = ctx.repo
+    gm = repo.cls(f"{GM}.SsbGraphMinimizer")
+    order = _pipeline(repo)
+    unsetters = [p for p in order if any(isinstance(c, ast.Call) and isinstance(c.func, ast.Attribute) and c.func.attr == "unset_root"
+                                         for c in walk_no_nested(gm.methods[p]))]
+    if not unsetters:
+        chk.hold(rule, "root-typestate", gm.mod, "no pass unsets the root of a jump")
+        return
+    first = order.index(unsetters[0])
+    later = order[first + 1:]
+    n_sites = 0
+    for p in later:
+        for mname in [p] + _helpers(gm, gm.methods[p], {p}):
+            m = gm.methods[mname]
+            f = Func(gm.mod, gm, m)
+            par: dict[ast.AST, ast.AST] = {}
+            for x in ast.walk(m):
+                for ch in ast.iter_child_nodes(x):
+                    par[ch] = x
+            for n in walk_no_nested(m):
+                if not (isinstance(n, ast.Attribute) and n.attr == "root" and isinstance(n.ctx, ast.Load)):
+                    continue
+                base = norm(n.value)
+                if base in ("self",):
+                    continue
+                n_sites += 1
+                guard = f"{base}.maybe_root is not None"
+                ok = False
+                # (a) an earlier conjunct of the same `and`, or the test of an enclosing if/while
+                cur: ast.AST = n
+                while cur in par:
+                    up = par[cur]
+                    if isinstance(up, ast.BoolOp) and isinstance(up.op, ast.And):
+                        idx = next(i for i, v in enumerate(up.values) if v is cur or any(x is cur for x in ast.walk(v)))
+                        if any(norm(v) == guard for v in up.values[:idx]):
+                            ok = True
+                    if isinstance(up, (ast.If, ast.While)) and cur is not up.test and guard in norm(up.test) and " or " not in norm(up.test):
+                        ok = True
+                    cur = up
+                # (b) the jump was built in this method: <base> = SsbLabelJump(...)
+                if not ok:
+                    for a in walk_no_nested(m):
+                        if isinstance(a, ast.Assign) and norm(a.targets[0]) == base and isinstance(a.value, ast.Call) and dotted(a.value.func) == "SsbLabelJump" \
+                                and a.lineno < n.lineno:
+                            ok = True
+                chk.decide(rule, fkey(f, stmt_like(par, n), f"root:{base}"), ok, f,
+                           f"`{base}.root` is read in {mname} (part of pass {p}) without `{guard}`: {unsetters[0]} unsets the root of the Branch jumps it merges into an "
+                           "`||` group, the property asserts, and the routine falls back to SsbScript / is printed with jumps", "guarded or freshly built", node=n)
+    chk.floor(rule, "reads of .root in passes after the grouping pass", n_sites, 4)
+
+
+def stmt_like(par: dict[ast.AST, ast.AST], n: ast.AST) -> ast.AST:
+    cur = n
+    while cur in par and not isinstance(cur, ast.stmt):
+        cur = par[cur]
+    return cur
+
+
+def stale_ids_in_loop_rule(chk: Check, ctx: Any, rule: str) -> None:
+    """Edge ids collected before a loop are not used after an edge of the same graph was deleted inside the loop (igraph renumbers edges)."""
+    repo = ctx.repo
+    gm = repo.cls(f"{GM}.SsbGraphMinimizer")
+    # methods that delete edges, directly or through helpers
+    deleters: set[str] = set()
+    changed = True
+    while changed:
+        changed = False
+        for mname, m in gm.methods.items():
+            if mname in deleters:
+                continue
+            for c in walk_no_nested(m):
+                if isinstance(c, ast.Call) and isinstance(c.func, ast.Attribute) and (
+                        c.func.attr in ("delete_edges",) or (astq.self_attr(c.func) in deleters)):
+                    deleters.add(mname)
+                    changed = True
+                    break
+    n_loops = 0
+    for mname, m in gm.methods.items():
+        f = Func(gm.mod, gm, m)
+        for lp in walk_no_nested(m):
+            if not isinstance(lp, ast.For) or not isinstance(lp.target, ast.Name):
+                continue
+            it = astq.inline_locals(m, lp.iter)
+            t = norm(it)
+            if not (".incident(" in t):
+                continue
+            n_loops += 1
+            var = lp.target.id
+            dels = [c for st in lp.body for c in ast.walk(st) if isinstance(c, ast.Call) and isinstance(c.func, ast.Attribute)
+                    and (c.func.attr == "delete_edges" or astq.self_attr(c.func) in deleters)]
+            uses_id = any(isinstance(x, ast.Subscript) and norm(x.value).endswith(".es") and norm(x.slice) == var for st in lp.body for x in ast.walk(st))
+            chk.decide(rule, fkey(f, lp, "edge-ids"), not (dels and uses_id), f,
+                       f"the loop over the edge ids `{t}` looks each id up in the edge sequence but `{norm(dels[0])[:60] if dels else ''}` deletes an edge inside the "
+                       "loop: igraph renumbers the remaining edges, so from the second iteration on the ids name other edges (wrong edges are redirected or the "
+                       "lookup fails, and the routine falls back / keeps jumps)", "ids are used before any edge is deleted", node=lp)
+    chk.floor(rule, "loops over collected edge ids", n_loops, 1)
